@@ -1,6 +1,7 @@
 #!/bin/bash
 # Behaviour-preserving edits of ddddddO/gtree must keep every check green (exit 0).
 cd /verif
+export VERIF_REPLAY_DIR=/tmp/run_seed.replays VERIF_EVIDENCE_DIR=/tmp/run_seed.evidence
 for f in benign/*.diff; do
   if ! git -C /repo diff --quiet; then echo "/repo dirty"; exit 2; fi
   git -C /repo apply /verif/$f || { echo "$f does not apply"; continue; }
